@@ -80,6 +80,21 @@ def rule_R1(ctx, prog, label, rule='R1'):
         if fv is None or fv == 0:
             problems.append('the elimination `%s` is not asked for the reduced (full) echelon form' % pp(red)[:60])
         reduce_node = _node_of(g, red)
+        # the table parameter handed to the elimination is admissible for it (0 = automatic, or 1..10 so that 6k <= 64)
+        kpos = {'mzd_echelonize_m4ri': 3, '_mzd_echelonize_m4ri': 3}.get(callee_name(red))
+        if kpos is not None and len(red.kids) > kpos:
+            from .intervals import Interp, INF
+            got = {}
+
+            def on_expr(e, env, it):
+                if e is red:
+                    got['iv'] = it.ev(red.kids[kpos], env)
+            it = Interp(f, {}, lambda e, iv: None, prog=prog, allow_loops=True, on_expr=on_expr)
+            it.stmt(f.body, dict(it.env0))
+            iv = got.get('iv')
+            if iv is None or iv[0] < 0 or iv[1] > 10:
+                problems.append('the table parameter `%s` handed to %s ranges over %s; the elimination reads strips of 6k columns with one 64-bit read, so only 0 (automatic) and 1..10 are admissible'
+                                % (pp(red.kids[kpos])[:20], callee_name(red), ('[%s, %s]' % (iv[0] if iv[0] > -INF else '-inf', iv[1] if iv[1] < INF else 'inf')) if iv else 'an unknown interval'))
         augdef = fs.single_def(aug) if aug is not None else None
         augdef = strip(augdef, casts=True) if augdef is not None else None
         if augdef is None or augdef.kind != 'CallExpr':
